@@ -8,6 +8,7 @@
      {"ev":"PX","seen":{method,path,rawquery,body,ctype,accept,ver,_},"ret":{kind,status,hdr,body}}      Handler.Proxy was called
      {"ev":"UP","seen":{method,path,rawquery,accept,auth,xbn,xhop,_},"ret":{...}}                         the upstream was called
      {"ev":"Resp","status":n (0: connection broken),"ctype":"json"|"none"|"other","code":n,"objs":[..],"meta":{..},"loc":..}
+     {"ev":"CtxEnd","ctxerr":"canceled"|"deadline"|"none"}   how the context of a Handler call that blocks (scripted) ended
      {"ev":"Probe","ok":bool}                     after a broken connection: the listener still serves a request
      {"ev":"End"}
    Nothing is inferred but whether the unmarshaller accepts a body made for another fork.  The steps without an event (mux,
@@ -37,21 +38,21 @@ Conf == /\ Ev.m = T(c).h /\ Ev.args = ImplArgs(c) /\ (ObjsFixed(c) => Ev.objs = 
 TH == /\ IsEvent("H") /\ Ready /\ UNCHANGED <<got, probed>>
       /\ IF pc = "call" /\ ~hcalled /\ Conf
            THEN Call(Ev.objs, Ev.ret) /\ UNCHANGED odd
-           ELSE /\ hcalled' = TRUE /\ hcall' = Seen(Ev.m) /\ UNCHANGED <<c, pcalled, pcall, ucalled, out>>
-                /\ pc' = IF pc = "call" /\ ~hcalled THEN "respond" ELSE pc
+           ELSE /\ hcalled' = TRUE /\ hcall' = Seen(Ev.m) /\ UNCHANGED <<ctxend, c, pcalled, pcall, ucalled, out>>
+                /\ pc' = IF pc = "call" /\ ~hcalled THEN (IF Ev.ret.kind \in Blocking THEN "blocked" ELSE "respond") ELSE pc
                 /\ odd' = IF pc = "call" /\ ~hcalled THEN "HandlerCall" ELSE "UnexpectedHandlerCall"
 
 TPX == /\ IsEvent("PX") /\ Ready /\ UNCHANGED <<got, probed>>
        /\ IF pc = "proxy" /\ ~pcalled
             THEN ProxyCall(Ev.seen, Ev.ret) /\ odd' = IF Ev.seen # c.wire THEN "ProxySaw" ELSE odd
             ELSE /\ pcalled' = TRUE /\ pcall' = [m |-> "Proxy", args |-> Ev.seen, objs |-> <<>>, ret |-> Ev.ret] /\ odd' = "UnexpectedProxyCall"
-                 /\ UNCHANGED <<c, pc, hcalled, hcall, ucalled, out>>
+                 /\ UNCHANGED <<ctxend, c, pc, hcalled, hcall, ucalled, out>>
 UpWant == [method |-> c.wire.method, path |-> c.wire.path, rawquery |-> c.wire.rawquery, accept |-> c.wire.accept,
            auth |-> IF c.ans.kind = "auth" THEN c.upauth ELSE "", xbn |-> c.upxbn, xhop |-> ""] @@ NoMeta
 TUP == /\ IsEvent("UP") /\ Ready /\ UNCHANGED <<got, probed>>
        /\ IF pc = "events" /\ ~ucalled /\ c.ans.kind # "badaddr"
             THEN EventsCall(Ev.seen, Ev.ret) /\ odd' = IF Ev.seen # UpWant THEN "UpstreamSaw" ELSE odd
-            ELSE /\ ucalled' = TRUE /\ odd' = "UnexpectedUpstreamCall" /\ UNCHANGED <<c, pc, hcalled, hcall, pcalled, pcall, out>>
+            ELSE /\ ucalled' = TRUE /\ odd' = "UnexpectedUpstreamCall" /\ UNCHANGED <<ctxend, c, pc, hcalled, hcall, pcalled, pcall, out>>
 
 \* ---- the response
 Same(o) == /\ Ev.status = o.status /\ Ev.code = o.code /\ Ev.objs = o.objs /\ Ev.meta = o.meta
@@ -60,16 +61,20 @@ Observed == [status |-> Ev.status, ctype |-> Ev.ctype, code |-> Ev.code, objs |-
 TResp == /\ IsEvent("Resp") /\ Ready /\ ~got /\ got' = TRUE /\ UNCHANGED probed
          /\ IF pc = "respond" /\ \E o \in OutsAfter(c, hcall.ret) : Same(o)
               THEN Respond /\ Same(out') /\ UNCHANGED odd
+            ELSE IF pc = "prespond" THEN PRespond /\ odd' = (IF Same(out') THEN odd ELSE "Response")
             ELSE IF pc = "events" /\ c.ans.kind = "badaddr" THEN EventsBadAddr /\ odd' = (IF Same(out') THEN odd ELSE "Response")
             ELSE IF pc = "done" /\ Same(out) THEN UNCHANGED <<vars, odd>>
-            ELSE /\ out' = Observed /\ pc' = "done" /\ odd' = "Response" /\ UNCHANGED <<c, hcalled, hcall, pcalled, pcall, ucalled>>
+            ELSE /\ out' = Observed /\ pc' = "done" /\ odd' = "Response" /\ UNCHANGED <<ctxend, c, hcalled, hcall, pcalled, pcall, ucalled>>
+\* ---- the context of a blocked Handler call ended (or not: "none")
+TCtx == /\ IsEvent("CtxEnd") /\ Ready /\ UNCHANGED <<odd, got, probed>>
+        /\ IF pc \in {"blocked", "pblocked"} THEN CtxEnd(Ev.ctxerr) ELSE ctxend' = Ev.ctxerr /\ UNCHANGED <<c, pc, hcalled, hcall, pcalled, pcall, ucalled, out>>
 TProbe == IsEvent("Probe") /\ pc = "done" /\ got /\ Ev.ok = TRUE /\ probed' = TRUE /\ UNCHANGED <<vars, odd, got>>
 TEnd == /\ IsEvent("End") /\ pc = "done" /\ got /\ UNCHANGED <<vars, odd, got, probed>>
         /\ (out.status = 0 => probed)
-TraceNext == TReset \/ TSilent \/ TRefuse \/ TH \/ TPX \/ TUP \/ TResp \/ TProbe \/ TEnd
+TraceNext == TReset \/ TSilent \/ TRefuse \/ TCtx \/ TH \/ TPX \/ TUP \/ TResp \/ TProbe \/ TEnd
 TraceSpec == TraceInit /\ [][TraceNext]_tvars
 Mark == /\ CheckInv("Exclusive", Exclusive) /\ CheckInv("NoCallOnFault", NoCallOnFault) /\ CheckInv("ArgFidelity", ArgFidelity)
-        /\ CheckInv("RespFidelity", RespFidelity) /\ CheckInv("ErrorsShaped", ErrorsShaped)
+        /\ CheckInv("RespFidelity", RespFidelity) /\ CheckInv("ErrorsShaped", ErrorsShaped) /\ CheckInv("CtxPropagates", CtxPropagates)
         /\ CheckInv("Conforms", odd = "")
         /\ HWMark
 ====
